@@ -41,7 +41,8 @@ import (
 
 type helper struct {
 	genesis []*types.GenesisInfo
-	gate    *gate // when set, CheckGroup is a two-party barrier (concurrent AddGroup scenario)
+	reject  map[string]bool // ids CheckGroup refuses
+	gate    *gate           // when set, CheckGroup is a two-party barrier (concurrent AddGroup scenario)
 }
 
 // gate releases two goroutines together (or each alone after 50 ms, so that a call that
@@ -93,6 +94,9 @@ func (h *helper) CheckGroup(g *types.Group) (bool, error) {
 	if gt := h.gate; gt != nil {
 		gt.wait()
 	}
+	if h.reject[string(g.Id)] {
+		return false, fmt.Errorf("verif: group refused by the consensus check")
+	}
 	return true, nil
 }
 func (h *helper) VerifyMemberInfo(bh *types.BlockHeader, preBH *types.BlockHeader) (bool, error) {
@@ -116,6 +120,8 @@ type node struct {
 	nBoot        int
 	inits        int
 	nExec        int
+	branch       map[string]int // op kind : result class -> count (input distribution of the stream)
+	forkUsed     bool           // the fork database (store prefix "groupFork") was written since the last boot
 	retained     []*types.Group // objects the chain handed out in the previous raw-store check
 	pending      []string       // results of the two concurrent AddGroup calls, in the order they are reported as cadd lines
 	nConc        int
@@ -278,11 +284,28 @@ func addErr(err error) string {
 		return "pre-mismatch"
 	case err.Error() == "nil group":
 		return "nil-group"
+	case strings.Contains(err.Error(), "refused by the consensus check"):
+		return "check-fail"
 	case strings.Contains(err.Error(), "injected write fault"):
 		return "write-error" // save returned the error of its batch write
 
 	}
 	return "err:" + strings.ReplaceAll(err.Error(), " ", "_")
+}
+
+func parseMembers(s string) ([][]byte, bool) {
+	if s == "-" {
+		return nil, true
+	}
+	var out [][]byte
+	for _, p := range strings.Split(s, "+") {
+		b, err := hx.UnHex(p)
+		if err != nil {
+			return nil, false
+		}
+		out = append(out, b)
+	}
+	return out, true
 }
 
 func parseGroup4(a, b, c, d string) (*types.Group, bool) {
@@ -305,6 +328,15 @@ func (n *node) mutate(ws []string) (string, bool) {
 		if !ok {
 			return "", false
 		}
+		n.everIds[string(g.Id)] = g.Id
+		return addErr(gc.AddGroup(g)), true
+	case len(ws) == 6 && ws[0] == "add":
+		g, ok := parseGroup4(ws[1], ws[2], ws[3], ws[4])
+		ms, ok2 := parseMembers(ws[5])
+		if !ok || !ok2 {
+			return "", false
+		}
+		g.Members = ms
 		n.everIds[string(g.Id)] = g.Id
 		return addErr(gc.AddGroup(g)), true
 	case len(ws) == 1 && ws[0] == "rmlast":
@@ -416,6 +448,13 @@ func (n *node) concRm(g *types.Group, h uint64) (res string, badReads int64, fir
 	return res, atomic.LoadInt64(&bad), firstBad
 }
 
+func minInt(a, b int) int {
+	if a < b {
+		return a
+	}
+	return b
+}
+
 func listStr(l []string) string {
 	if len(l) == 0 {
 		return "none"
@@ -512,6 +551,46 @@ func (n *node) query(ws []string) (string, bool) {
 			return "LOOP", true
 		}
 		return gstr(firstBelowImpl(x)), true
+	case len(ws) == 2 && ws[0] == "avail":
+		h, err := strconv.ParseUint(ws[1], 10, 64)
+		if err != nil {
+			return "", false
+		}
+		if !forkHook {
+			return "unmodelled", true
+		}
+		if _, ok := n.iterIds(); !ok {
+			return "LOOP", true
+		}
+		var l []string
+		for _, g := range availableAtImpl(h) {
+			if g == nil {
+				l = append(l, "nil")
+			} else {
+				l = append(l, hx.Hex(g.Id))
+			}
+		}
+		return listStr(l), true
+	case len(ws) == 3 && ws[0] == "availm":
+		h, err := strconv.ParseUint(ws[1], 10, 64)
+		m, err2 := hx.UnHex(ws[2])
+		if err != nil || err2 != nil {
+			return "", false
+		}
+		if _, ok := n.iterIds(); !ok {
+			return "LOOP", true
+		}
+		r := guard(func() string {
+			var l []string
+			for _, g := range gc.GetAvailableGroupsByMinerId(h, m) {
+				l = append(l, hx.Hex(g.Id))
+			}
+			return listStr(l)
+		})
+		if strings.HasPrefix(r, "PANIC") {
+			r = "PANIC" // nil genesis group dereferenced
+		}
+		return r, true
 	case len(ws) == 1 && ws[0] == "top":
 		if !bootHook {
 			return "unmodelled", true
@@ -520,6 +599,9 @@ func (n *node) query(ws []string) (string, bool) {
 	case len(ws) == 1 && ws[0] == "dump":
 		var l []string
 		for _, kv := range core.VerifGroupChainDump() {
+			if n.forkUsed && strings.HasPrefix(string(kv[0]), "Fork") {
+				continue // the fork database's own keys (protobuf values; see fork_keyspace_disjoint)
+			}
 			l = append(l, hx.Hex(kv[0])+"="+valStr(kv[0], kv[1]))
 		}
 		if len(l) == 0 {
@@ -553,7 +635,48 @@ func lessHex(a, b string) bool {
 }
 
 // exec answers one op line with the implementation.
+// exec answers one op line with the implementation and files (op kind, result class) in n.branch.
 func (n *node) exec(line string) string {
+	res := n.exec1(line)
+	if n.branch == nil {
+		n.branch = map[string]int{}
+	}
+	f := strings.Fields(line)
+	if len(f) > 0 {
+		kind := f[0]
+		if (kind == "crash" || kind == "fault") && len(f) > 2 {
+			kind += "-" + f[2]
+		}
+		if kind == "sqlfault" && len(f) > 3 {
+			kind += "-" + f[3]
+		}
+		cls := "value"
+		rf := strings.Fields(res)
+		switch {
+		case len(rf) == 0:
+			cls = "empty"
+		case strings.HasPrefix(res, "PANIC"):
+			cls = "PANIC"
+		case strings.Contains(res, " / "):
+			p := strings.SplitN(res, " / ", 2)
+			cls = strings.Fields(p[0])[len(strings.Fields(p[0]))-1] + "/" + strings.Fields(p[1])[0]
+		case kind == "add" || kind == "rmlast" || kind == "rmto" || kind == "switch" || kind == "cadd" || kind == "restart" ||
+			kind == "boot" || kind == "addrej" || kind == "addnil" || kind == "rmnil" || strings.HasPrefix(kind, "fault"):
+			cls = rf[0]
+		case res == "nil" || res == "none" || res == "dead" || res == "unmodelled" || res == "bad-op" || res == "LOOP":
+			cls = res
+		case kind == "avail" || kind == "availm" || kind == "iter" || kind == "sync" || kind == "syncat":
+			cls = fmt.Sprintf("%d-entries", len(rf))
+			if strings.Contains(res, "nil") {
+				cls += "+nil"
+			}
+		}
+		n.branch[kind+":"+cls]++
+	}
+	return res
+}
+
+func (n *node) exec1(line string) string {
 	n.nExec++
 	if n.nExec%256 == 0 {
 		if b, err := os.ReadFile("/proc/self/statm"); err == nil {
@@ -569,6 +692,9 @@ func (n *node) exec(line string) string {
 	ws := strings.Fields(line)
 	if len(ws) == 0 {
 		return "bad-op"
+	}
+	if ws[0] == "config" {
+		return "ok" // tells the model a configuration value of the node (see main)
 	}
 	if ws[0] == "bootcrash" {
 		// bootcrash <k1> <k2|-> <genesis…>: crash points during the first start-up (hook H4b)
@@ -635,18 +761,33 @@ func (n *node) exec(line string) string {
 		var gi []*types.GenesisInfo
 		for _, t := range ws[1:] {
 			p := strings.Split(t, ",")
-			if len(p) != 4 {
+			if len(p) < 4 || len(p) > 6 {
 				return "bad-op"
 			}
 			g, ok := parseGroup4(p[0], p[1], p[2], p[3])
 			if !ok {
 				return "bad-op"
 			}
+			if len(p) >= 5 {
+				dm, err := strconv.ParseUint(p[4], 10, 64)
+				if err != nil {
+					return "bad-op"
+				}
+				g.Header.DismissHeight = dm
+			}
+			if len(p) == 6 {
+				ms, ok := parseMembers(p[5])
+				if !ok {
+					return "bad-op"
+				}
+				g.Members = ms
+			}
 			gi = append(gi, &types.GenesisInfo{Group: *g})
 		}
 		n.wipe()
 		n.h = &helper{genesis: gi}
 		n.booted = true
+		n.forkUsed = false
 		n.hist = nil
 		n.nBoot++
 		if len(gi) == 0 {
@@ -664,11 +805,73 @@ func (n *node) exec(line string) string {
 		return "unmodelled"
 	}
 	switch ws[0] {
-	case "add", "rmlast", "rmto", "restart", "crash", "conc", "concrm", "fault":
+	case "add", "rmlast", "rmto", "restart", "crash", "conc", "concrm", "fault", "sqlfault", "switch":
 		n.hist = append(n.hist, line)
 	}
 	if !n.alive {
 		return "dead"
+	}
+	if ws[0] == "addnil" && len(ws) == 1 {
+		return addErr(core.GetGroupChain().AddGroup(nil)) + " " + n.status()
+	}
+	if ws[0] == "rmnil" && len(ws) == 1 {
+		return strconv.FormatBool(core.VerifGroupChainRemove(nil)) + " " + n.status()
+	}
+	if ws[0] == "addrej" && len(ws) == 5 {
+		g, ok := parseGroup4(ws[1], ws[2], ws[3], ws[4])
+		if !ok {
+			return "bad-op"
+		}
+		n.h.reject = map[string]bool{string(g.Id): true}
+		res := guard(func() string { return addErr(core.GetGroupChain().AddGroup(g)) })
+		n.h.reject = nil
+		if strings.HasPrefix(res, "PANIC") {
+			return res
+		}
+		return res + " " + n.status()
+	}
+	if ws[0] == "switch" && len(ws) >= 2 {
+		// switch <h> <id,pre,parent,create[,members]>…: the real groupChainFork on the ancestor at height h
+		h, err := strconv.ParseUint(ws[1], 10, 64)
+		if err != nil {
+			return "bad-op"
+		}
+		var gs []*types.Group
+		for i, t := range ws[2:] {
+			p := strings.Split(t, ",")
+			if len(p) != 4 && len(p) != 5 {
+				return "bad-op"
+			}
+			g, ok := parseGroup4(p[0], p[1], p[2], p[3])
+			if !ok {
+				return "bad-op"
+			}
+			if len(p) == 5 {
+				ms, ok := parseMembers(p[4])
+				if !ok {
+					return "bad-op"
+				}
+				g.Members = ms
+			}
+			g.GroupHeight = h + 1 + uint64(i)
+			n.everIds[string(g.Id)] = g.Id
+			gs = append(gs, g)
+		}
+		if !forkHook {
+			return "unmodelled"
+		}
+		gc := core.GetGroupChain()
+		anc := gc.GetGroupByHeight(h)
+		if gc.Count() >= 1<<32 || anc == nil || h >= gc.Count() {
+			return "unmodelled"
+		}
+		n.forkUsed = true
+		var r bool
+		res := guard(func() string { r = forkSwitchImpl(anc, gs); return "" })
+		if strings.HasPrefix(res, "PANIC") {
+			return res
+		}
+		return strconv.FormatBool(r) + " " + n.status()
 	}
 	if ws[0] == "forkput" && len(ws) == 2 {
 		// what groupChainFork does to its own prefixed store "groupFork": same LevelDB, and the
@@ -747,6 +950,41 @@ func (n *node) exec(line string) string {
 		}
 		n.nRestart++
 		return n.start()
+	}
+	if ws[0] == "sqlfault" && len(ws) >= 4 {
+		// sqlfault ins|del <id> <mutator>: the sqlite statement for that group's row fails while the op runs.
+		// save/remove panic on it (process death): a start-up follows.
+		id, err := hx.UnHex(ws[2])
+		if err != nil || (ws[1] != "ins" && ws[1] != "del") {
+			return "bad-op"
+		}
+		if ws[3] == "rmto" && core.GetGroupChain().Count() >= 1<<32 {
+			return "unmodelled"
+		}
+		if e := armSQLFault(ws[1], id); e != nil {
+			return "PANIC arm:" + strings.ReplaceAll(e.Error(), " ", "_")
+		}
+		var ok bool
+		res := guard(func() string {
+			var r string
+			r, ok = n.mutate(ws[3:])
+			return r
+		})
+		dropSQLFault()
+		if strings.HasPrefix(res, "PANIC") {
+			if !strings.Contains(res, "injected_sql_fault") {
+				return res
+			}
+			res = "panic"
+		} else if !ok {
+			return "bad-op"
+		}
+		if preCycle() {
+			n.alive, n.booted = false, false
+			return "unmodelled"
+		}
+		n.nRestart++
+		return res + " / " + n.start()
 	}
 	if ws[0] == "fault" && len(ws) >= 3 {
 		// fault <j> <mutator>: the j-th physical write of the op returns an error (hook H2b) and the op carries on
@@ -1036,14 +1274,15 @@ type gen struct {
 	r    *hx.Rng
 	emit func(op string) string // runs op on the implementation (and records it)
 	// generator's own view, used only to bias choices (never to compute answers)
-	listed []string // hex ids believed on chain, genesis first
-	pool   []string
-	create uint64
-	alive  bool
-	part   int
-	parts  int
-	n      *node
-	seqNo  int
+	listed        []string // hex ids believed on chain, genesis first
+	pool          []string
+	create        uint64
+	alive         bool
+	part          int
+	parts         int
+	n             *node
+	seqNo         int
+	genesisFields bool // boot tokens may carry dismiss height and members
 }
 
 // conc: two concurrent AddGroup calls on top of the current last; the outcome goes to the
@@ -1071,6 +1310,8 @@ func (g *gen) conc() {
 	g.emit("rmlast")
 }
 
+var miners = []string{"e1", "e2e2", "e3"}
+
 var idPool = []string{"a1", "a2", "b1b2", "c1c2c3", "d4", "e5e6", "f7"}
 
 func (g *gen) boot(k int) {
@@ -1079,7 +1320,12 @@ func (g *gen) boot(k int) {
 	pre := "-"
 	for i := 0; i < k; i++ {
 		id := fmt.Sprintf("%02x%02x", 0x90+i, 0x01)
-		toks = append(toks, fmt.Sprintf("%s,%s,%s,%d", id, pre, id, i))
+		tok := fmt.Sprintf("%s,%s,%s,%d", id, pre, id, i)
+		if g.r != nil && g.genesisFields && g.r.Chance(1, 2) {
+			dm := []uint64{18446744073709551615, common.GetGroupWorkDuration() + 5, 3, 1}[g.r.Intn(4)] // > 0: the mirror query lists rows with dismissheight > 0
+			tok += fmt.Sprintf(",%d,%s", dm, []string{"-", "e1", "e1+e3"}[g.r.Intn(3)])
+		}
+		toks = append(toks, tok)
 		g.listed = append(g.listed, id)
 		pre = id
 	}
@@ -1113,6 +1359,16 @@ func (g *gen) probes() {
 		e := edges[g.r.Intn(len(edges))]
 		g.emit("byheight " + e)
 		g.emit("syncat " + e + " 2")
+	}
+	if forkHook {
+		dur := common.GetGroupWorkDuration()
+		hs := []uint64{0, g.create, g.create + dur - 1, g.create + dur, dur + 1, dur + 2, 2, 5}
+		if g.create > 2 {
+			hs = append(hs, g.create-2+dur, g.create-1+dur)
+		}
+		h := hs[g.r.Intn(len(hs))]
+		g.emit(fmt.Sprintf("avail %d", h))
+		g.emit(fmt.Sprintf("availm %d %s", h, miners[g.r.Intn(len(miners))]))
 	}
 	if bootHook {
 		g.emit("top")
@@ -1171,6 +1427,17 @@ func (g *gen) mutator(allowCrash bool) string {
 	default:
 		op = fmt.Sprintf("rmto %d", r.Intn(len(g.listed)+2))
 	}
+	if allowCrash && r.Chance(1, 14) && len(g.listed) > 0 {
+		kind := "del"
+		if strings.HasPrefix(op, "add") {
+			kind = "ins"
+		}
+		victim := g.listed[len(g.listed)-1-r.Intn(minInt(3, len(g.listed)))]
+		if kind == "ins" {
+			victim = strings.Fields(op)[1]
+		}
+		return fmt.Sprintf("sqlfault %s %s %s", kind, victim, op)
+	}
 	if allowCrash && faultHook && r.Chance(1, 12) {
 		return fmt.Sprintf("fault %d %s", r.Intn(5), op)
 	}
@@ -1179,6 +1446,10 @@ func (g *gen) mutator(allowCrash bool) string {
 		if strings.Contains(op, "rmto") && r.Bool() {
 			op = fmt.Sprintf("crash %d rmto %d", r.Intn(10), r.Intn(len(g.listed)+1))
 		}
+	}
+	if strings.HasPrefix(op, "add ") && len(strings.Fields(op)) == 5 && r.Chance(1, 2) {
+		// members (the evidence showed availm answering "none" 83 % of the time: groups had no members)
+		op += " " + []string{"e1", "e2e2", "e1+e3", "e3+e2e2+e1", "e1+e2e2"}[r.Intn(5)]
 	}
 	return op
 }
@@ -1209,7 +1480,7 @@ func (g *gen) boundaryPool() []string {
 	for _, n := range []int{1, 7, 9, 31, 33} {
 		pool = append(pool, mk(n, r.Bool(), r.Bool()))
 	}
-	pool = append(pool, "00", "a1a1", "466f726b"+mk(4, false, false))
+	pool = append(pool, "00", "a1a1") // ("Fork"-prefixed ids live in the malformed stream: the dump hides the fork database's keys)
 	// keep the pool small enough that ids repeat within a sequence
 	for len(pool) > 12 {
 		i := len(idPool) + r.Intn(len(pool)-len(idPool))
@@ -1218,7 +1489,88 @@ func (g *gen) boundaryPool() []string {
 	return pool
 }
 
+// switchOp: a fork switch from a random ancestor on the chain with 0–3 fork groups (mostly well
+// linked; sometimes a wrong predecessor, an unknown parent or an id that is still on the chain).
+func (g *gen) switchOp() string {
+	r := g.r
+	h := r.Intn(len(g.listed))
+	pre := g.listed[h]
+	op := fmt.Sprintf("switch %d", h)
+	k := r.Intn(4)
+	for i := 0; i < k; i++ {
+		g.create++
+		id := g.pool[r.Intn(len(g.pool))]
+		p := pre
+		parent := g.listed[r.Intn(h+1)]
+		switch r.Intn(12) {
+		case 0:
+			p = g.listed[r.Intn(len(g.listed))]
+		case 1:
+			parent = g.pool[r.Intn(len(g.pool))]
+		}
+		tok := fmt.Sprintf("%s,%s,%s,%d", id, p, parent, g.create)
+		if r.Chance(1, 3) {
+			tok += "," + []string{"e1", "e2e2+e3", "-"}[r.Intn(3)]
+		}
+		op += " " + tok
+		pre = id
+	}
+	return op
+}
+
+// forkSwitches: every (chain length 1..4, ancestor, fork length 0..2) with fresh and with re-used ids.
+func (g *gen) forkSwitches() int {
+	if !forkHook {
+		return 0
+	}
+	cnt := 0
+	ids := []string{"a1", "b1b2", "c1c2c3"}
+	fresh := []string{"d4", "e5e6"}
+	for n := 0; n <= 3; n++ {
+		for h := 0; h <= n; h++ {
+			for k := 0; k <= 2; k++ {
+				for reuse := 0; reuse < 2; reuse++ {
+					if reuse == 1 && (k == 0 || h == n) {
+						continue
+					}
+					g.pool = idPool
+					g.boot(1)
+					pre := "9001"
+					for i := 0; i < n; i++ {
+						g.emit(fmt.Sprintf("add %s %s 9001 %d e1", ids[i], pre, i+1))
+						pre = ids[i]
+					}
+					g.resync()
+					op := fmt.Sprintf("switch %d", h)
+					p := g.listed[h]
+					for i := 0; i < k; i++ {
+						id := fresh[i]
+						if reuse == 1 && i == 0 {
+							id = ids[n-1] // the id of a group the switch removes: free again
+						}
+						op += fmt.Sprintf(" %s,%s,9001,%d,e3", id, p, 10+i)
+						p = id
+					}
+					g.emit(op)
+					g.resync()
+					if g.alive {
+						g.probes()
+						g.emit("restart")
+						g.resync()
+						if g.alive {
+							g.probes()
+						}
+					}
+					cnt++
+				}
+			}
+		}
+	}
+	return cnt
+}
+
 func (g *gen) randomSequence(maxOps int, allowCrash bool) {
+	g.genesisFields = forkHook
 	g.pool = idPool
 	if g.seqNo%2 == 1 {
 		g.pool = g.boundaryPool()
@@ -1232,6 +1584,23 @@ func (g *gen) randomSequence(maxOps int, allowCrash bool) {
 			g.emit("restart")
 		} else if g.r.Chance(1, 12) && len(g.listed) > 0 {
 			g.conc()
+		} else if g.r.Chance(1, 10) && len(g.listed) > 0 {
+			g.create++
+			ms := []string{"e1", "e2e2", "e1+e3", "e3+e2e2+e1", "-"}[g.r.Intn(5)]
+			g.emit(fmt.Sprintf("add %s %s %s %d %s", g.pool[g.r.Intn(len(g.pool))], g.last(), g.listed[0], g.create, ms))
+		} else if forkHook && g.r.Chance(1, 10) && len(g.listed) > 0 {
+			g.emit(g.switchOp())
+		} else if g.r.Chance(1, 25) {
+			g.emit([]string{"addnil", "rmnil"}[g.r.Intn(2)])
+			g.emit("dump")
+		} else if g.r.Chance(1, 20) && len(g.listed) > 0 {
+			g.create++
+			id := g.pool[g.r.Intn(len(g.pool))]
+			if g.r.Chance(1, 3) {
+				id = g.listed[g.r.Intn(len(g.listed))]
+			}
+			g.emit(fmt.Sprintf("addrej %s %s %s %d", id, g.last(), g.listed[0], g.create))
+			g.emit("dump")
 		} else {
 			op := g.mutator(allowCrash)
 			g.emit(op)
@@ -1381,6 +1750,66 @@ func (g *gen) concRm() {
 	g.emit("dump")
 }
 
+// sqlFaults: a failing sqlite statement for each group touched by an add, a remove and a fork switch
+// that removes one, two and three groups (fault on the top, a middle and the lowest removed group),
+// each followed by queries, the mirror, a retry of the operation and a restart.
+func (g *gen) sqlFaults() int {
+	cnt := 0
+	after := func() {
+		g.resync()
+		if !g.alive {
+			return
+		}
+		g.probes()
+		g.emit("rmto 0")
+		g.resync()
+		g.probes()
+		g.emit("add a2 " + g.last() + " " + g.listed[0] + " 9")
+		g.resync()
+		g.probes()
+		g.emit("restart")
+		g.resync()
+		if g.alive {
+			g.probes()
+		}
+		cnt++
+	}
+	ids := []string{"a1", "b1b2", "c1c2c3", "d4"}
+	build := func(n int) {
+		g.pool = idPool
+		g.boot(1)
+		pre := "9001"
+		for i := 0; i < n; i++ {
+			g.emit(fmt.Sprintf("add %s %s 9001 %d", ids[i], pre, i+1))
+			pre = ids[i]
+		}
+		g.resync()
+	}
+	build(0)
+	g.emit("sqlfault ins a1 add a1 9001 9001 1")
+	after()
+	build(1)
+	g.emit("sqlfault ins e5e6 add b1b2 a1 9001 2") // fault armed for another group: nothing fails
+	after()
+	for n := 1; n <= 4; n++ {
+		for victim := 0; victim < n; victim++ {
+			hs := []int{0}
+			if n >= 3 {
+				hs = append(hs, n-2)
+			}
+			for _, h := range hs {
+				build(n)
+				g.emit(fmt.Sprintf("sqlfault del %s rmto %d", ids[victim], h))
+				after()
+			}
+		}
+	}
+	build(2)
+	g.emit("sqlfault del b1b2 rmlast")
+	after()
+	return cnt
+}
+
 // concStress: many rounds of two concurrent AddGroup calls on one chain, shrinking it in between.
 func (g *gen) concStress(rounds int) {
 	g.pool = idPool
@@ -1433,6 +1862,8 @@ func (g *gen) exhaustive(depth int, crash bool) int {
 			}
 			if i == len(seq)-1 && crashK >= 0 && s != "S" {
 				op = fmt.Sprintf("crash %d %s", crashK, op)
+			} else if strings.HasPrefix(op, "add ") {
+				op += " " + []string{"e1", "e1+e2e2", "e3"}[i%3] // members, for the by-miner selection
 			}
 			g.emit(op)
 			g.resync()
@@ -1459,8 +1890,13 @@ func (g *gen) exhaustive(depth int, crash bool) int {
 					continue
 				}
 				run(s2, -1)
+				// crash prefixes of the last op: all four for every sequence up to four ops; on the fifth level
+				// of a thorough run (3125 sequences) only prefixes 1 and 2, to keep the tier under ~25 minutes
 				if crash && a != "S" {
 					for k := 0; k <= 3; k++ {
+						if d >= 5 && (k == 0 || k == 3) {
+							continue // fifth level of a thorough run: only the two middle prefixes
+						}
 						run(s2, k)
 					}
 				}
@@ -1544,6 +1980,9 @@ func corpusFiles() []string {
 	for _, f := range all {
 		if strings.Contains(filepath.Base(f), "needs-h4b") && !bootHook {
 			continue // first-boot crash scripts need hook H4b in the tree under test
+		}
+		if strings.Contains(filepath.Base(f), "needs-h4c") && !forkHook {
+			continue // fork switch / availableGroupsAt scripts need hook H4c
 		}
 		fs = append(fs, f)
 	}
@@ -1634,7 +2073,7 @@ func main() {
 	broken := false   // the current history already violated the property: later symptoms derive from it
 	// Watchdog: the real code has unbounded loops on states that break the invariant
 	// (refreshCache on a predecessor cycle, removeFromCommonAncestor after a count underflow).
-	// An op that runs longer than 20 s is reported and the process stops, instead of a 5-minute timeout.
+	// An op that runs longer than 90 s is reported and the process stops, instead of a 5-minute timeout.
 	var opStart int64
 	var curOp atomic.Value
 	curOp.Store("")
@@ -1642,16 +2081,16 @@ func main() {
 		for {
 			time.Sleep(time.Second)
 			t0 := atomic.LoadInt64(&opStart)
-			if t0 != 0 && time.Now().Unix()-t0 > 20 {
+			if t0 != 0 && time.Now().Unix()-t0 > 90 {
 				op, _ := curOp.Load().(string)
 				if mode == "search" {
-					v := viol{Key: "hang", Desc: "operation does not terminate within 20 s: " + op, History: append([]string{}, n.hist...)}
+					v := viol{Key: "hang", Desc: "operation does not terminate within 90 s: " + op, History: append([]string{}, n.hist...)}
 					b, _ := json.Marshal(v)
 					fmt.Println("VIOL " + string(b))
 					fmt.Printf("SEARCH {\"evaluations\":%d,\"mutators\":%d,\"boots\":%d,\"restarts\":%d,\"exhaustive_sequences\":0}\n", evals, mutators, n.nBoot, n.nRestart)
 					os.Exit(0)
 				}
-				fmt.Fprintln(os.Stderr, "c19 harness: op does not terminate within 20 s: "+op)
+				fmt.Fprintln(os.Stderr, "c19 harness: op does not terminate within 90 s: "+op)
 				os.Exit(4)
 			}
 		}
@@ -1684,7 +2123,7 @@ func main() {
 			broken, crashed, faulted = false, false, false
 		case "bootcrash":
 			broken, crashed, faulted = false, strings.HasPrefix(res, "crashed"), false
-		case "add", "rmlast", "rmto", "restart", "crash", "cadd", "fault":
+		case "add", "rmlast", "rmto", "restart", "crash", "cadd", "fault", "sqlfault", "switch":
 		default:
 			return res
 		}
@@ -1777,6 +2216,7 @@ func main() {
 			panic(err)
 		}
 		violFile, _ = os.Create(a["ops"] + ".viols")
+		out.Emit(fmt.Sprintf("config duration %d", common.GetGroupWorkDuration()), "ok")
 		defer out.Close()
 	}
 
@@ -1802,6 +2242,8 @@ func main() {
 		nEx = g.exhaustive(depth, true) // shortest histories first: they make the replay of a finding
 		g.bootCrashes()
 		g.writeFaults()
+		g.sqlFaults()
+		g.forkSwitches()
 		for i := 0; i < nSeq; i++ {
 			g.randomSequence(maxOps, i%3 != 0)
 		}
@@ -1822,6 +2264,8 @@ func main() {
 		if part == 0 {
 			g.bootCrashes()
 			g.writeFaults()
+			g.sqlFaults()
+			g.forkSwitches()
 		}
 		for i := 0; i < nSeq; i++ {
 			g.randomSequence(maxOps, i%3 != 0)
@@ -1849,8 +2293,9 @@ func main() {
 		return
 	}
 	st := out.StatsJSON()
+	bb, _ := json.Marshal(n.branch)
 	vb, _ := json.Marshal(viols)
-	st = strings.TrimSuffix(st, "}") + fmt.Sprintf(",\"oracle_evaluations\":%d,\"viols\":%s,\"corpus_ops\":%d,\"random_sequences\":%d,\"exhaustive_sequences\":%d,\"exhaustive_depth\":%d,\"concurrent_rounds\":%d,\"boots\":%d,\"restarts\":%d,\"physical_writes\":%d}",
-		evals, string(vb), nCorpus, nSeq, nEx, depth, n.nConc, n.nBoot, n.nRestart, n.writes)
+	st = strings.TrimSuffix(st, "}") + fmt.Sprintf(",\"branches\":%s,\"oracle_evaluations\":%d,\"viols\":%s,\"corpus_ops\":%d,\"random_sequences\":%d,\"exhaustive_sequences\":%d,\"exhaustive_depth\":%d,\"concurrent_rounds\":%d,\"boots\":%d,\"restarts\":%d,\"physical_writes\":%d}",
+		string(bb), evals, string(vb), nCorpus, nSeq, nEx, depth, n.nConc, n.nBoot, n.nRestart, n.writes)
 	fmt.Println("STATS " + st)
 }
